@@ -1,7 +1,7 @@
 SPECIFICATION Spec
 CONSTANTS
   Thorough = FALSE
-  Dev_h41 = TRUE
+  Dev_h41 = FALSE
   Emit = TRUE
 INVARIANTS CalendarOk RoundTrip FmtRefines ParseRefines FunctionForm Terminates EmitInv
 CHECK_DEADLOCK FALSE
